@@ -2029,6 +2029,9 @@ class ExpressionEvaluator(Parser):
                 value = constant.token[2:]
             except KeyError:
                 value = constant.token
+                # A leading zero introduces an octal constant.
+                if len(value) > 1 and value[0] == "0":
+                    base = 8
 
             # Strip suffix (if present)
             suffix = None
